@@ -12,4 +12,5 @@ import (
 	_ "verif/h/c14"
 	_ "verif/h/c15"
 	_ "verif/h/c16"
+	_ "verif/h/c17"
 )
